@@ -381,3 +381,89 @@ func c08TagAfterVersion(ctx *core.Ctx, maxpend int, releaseOldFirst bool) core.R
 	}
 	return res
 }
+
+// c08FlushAsMember: a Tflush is a request like any other as far as its own tag goes: issued under a tag that older
+// requests still carry, it takes its turn in that tag's queue — answered after them, before the ones that came later.
+func c08FlushAsMember(ctx *core.Ctx, maxpend int) core.Result {
+	var res core.Result
+	s, e, _, ok := c08setup(Config{Dotu: true, Msize: 8192, Maxpend: maxpend})
+	if !ok {
+		res.Inconclusive = "c08: setup failed"
+		return res
+	}
+	c := e.c
+	defer c.Hangup()
+	for rep := 0; rep < 6 && len(res.Violations) == 0; rep++ {
+		ctx.Beat()
+		tag := e.next()
+		seq0 := s.Log.Seq()
+		det := map[string]interface{}{"maxpend": maxpend, "rep": rep, "tag": tag}
+		first := &wire.Msg{Type: wire.Tstat, Tag: tag, Fid: e.root}
+		p1 := script.NewPlan()
+		p1.Gate, p1.Entered = make(chan struct{}), make(chan struct{})
+		s.Ops.SetPlan(c.ID, tag, p1)
+		_ = c.Send(first)
+		select {
+		case <-p1.Entered:
+		case <-time.After(W):
+			res.Inconclusive = "c08: first member never started"
+			return res
+		}
+		// the flush names a tag that is not outstanding (rep even) or another, held request's tag (rep odd)
+		old := uint16(0x7777)
+		var otherGate chan struct{}
+		if rep%2 == 1 {
+			o := &wire.Msg{Type: wire.Tstat, Tag: e.next(), Fid: e.root}
+			po := script.NewPlan()
+			po.Gate, po.Entered = make(chan struct{}), make(chan struct{})
+			otherGate = po.Gate
+			s.Ops.SetPlan(c.ID, o.Tag, po)
+			_ = c.Send(o)
+			select {
+			case <-po.Entered:
+			case <-time.After(W):
+			}
+			old = o.Tag
+		}
+		fl := &wire.Msg{Type: wire.Tflush, Tag: tag, Oldtag: old}
+		third := &wire.Msg{Type: wire.Twalk, Tag: tag, Fid: e.root, Newfid: uint32(700 + rep)}
+		_ = c.Send(fl, third)
+		s.Ctl.WaitPassed("recv.dispatch", c.ID, int(tag), 3, 2*time.Second)
+		time.Sleep(3 * time.Millisecond)
+		res.Evals++
+		if rp, err := c.WaitTag(tag, 10*time.Millisecond); err == nil && rp != nil && rp.Msg != nil {
+			res.Violate("C08;flush-as-member;answered-out-of-turn", fmt.Sprintf("a %s under the shared tag was sent while the first request of the tag was still executing", wire.TypeName(rp.Msg.Type)), det)
+			close(p1.Gate)
+			if otherGate != nil {
+				close(otherGate)
+			}
+			return res
+		}
+		for _, ev := range s.Log.Snapshot(seq0) {
+			if ev.Kind == "op" && ev.Conn == c.ID && ev.Tag == tag && ev.Op == "Walk" {
+				res.Violate("C08;flush-as-member;not-serial", "a later request of the tag was started while the first was still executing (a Tflush under the same tag sat between them)", det)
+			}
+		}
+		close(p1.Gate)
+		if otherGate != nil {
+			time.Sleep(time.Millisecond)
+			close(otherGate)
+		}
+		var types []uint8
+		for len(types) < 3 {
+			rp, err := c.WaitTag(tag, W)
+			if err != nil || rp.Msg == nil {
+				res.Violate("C08;flush-as-member;reply-missing", fmt.Sprintf("%d of 3 replies under the shared tag", len(types)), det)
+				return res
+			}
+			types = append(types, rp.Msg.Type)
+		}
+		if types[0] != wire.Rstat || types[1] != wire.Rflush || types[2] != wire.Rwalk {
+			res.Violate("C08;flush-as-member;reply-order", fmt.Sprintf("replies under the shared tag came as %s, %s, %s; issued were Tstat, Tflush, Twalk", wire.TypeName(types[0]), wire.TypeName(types[1]), wire.TypeName(types[2])), det)
+		}
+		c.Quiesce(W)
+		e.ok(&wire.Msg{Type: wire.Tclunk, Fid: uint32(700 + rep)})
+		res.Sig(fmt.Sprintf("flush-as-member|mp=%d|old=%v", maxpend, rep%2 == 1))
+	}
+	return res
+}
